@@ -12,6 +12,6 @@ def want(case, sig):
 
 
 def run(v, tier, seed):
-    return run_view_check(v, tier, seed, want, [viewpipe.view_results, viewpipe.header_results, viewpipe.gen_view_results],
+    return run_view_check(v, tier, seed, want, [viewpipe.view_results, viewpipe.header_results, viewpipe.gen_view_results, viewpipe.repo_view_results],
                           "one vector per (schema, message, shape): the SBE image + every leaf/group/data value; distinct = vectors",
                           "DecodeRefines model-checked on View.tla for every explored shape; each image replayed through every getter of the generated classes")
